@@ -245,6 +245,8 @@ fn families(a: &Args) -> Vec<Family> {
         list_family("digraph-lists3-m5", true, ListFam::new(3, 5, true)),
         list_family("ungraph-lists4", true, ListFam::new(4, 4, false)),
         simple_family("ungraphs6-loopfree", true, SimpleFam::new(6..=6, false, false)),
+        simple_family("digraphs5-loops", true, SimpleFam::new(5..=5, true, true)),
+        simple_family("ungraphs6-loops", true, SimpleFam::new(6..=6, false, true)),
     ]
 }
 
